@@ -794,7 +794,7 @@ Section Proofs.
     intros H l Hl. injection Hl as <-. cbn [new_level lk lcond lmul lh comb_k default_h].
     rewrite (simple_value_is_formula _ _ [] x 1 (sumR vals)); cbn [lk lmul lcond]; auto.
     - unfold kk; cbn [lh ln simple_amount Penalty.p_func zero_base Penalty.xadd]. unr. reflexivity.
-    - unfold and_cond. Show. rewrite (and_cond_fin members vals x 0 H). cbn [x_to_c]. unr. f_equal. lra.
+    - unfold and_cond. unr. rewrite (and_cond_fin members vals x 0 H). cbn [x_to_c]. f_equal. unr. lra.
   Qed.
 
   (* hence (members >= 0): zero iff every member is zero at x *)
@@ -827,4 +827,138 @@ Section Proofs.
               ln _ _ l = 0%nat /\ ly _ _ l = [].
   Proof. eexists; repeat split. Qed.
 
+
+  (* ------------------------------------------------------------ the documented expression, kind by kind *)
+  Ltac by_simple K Ek Hc :=
+    match goal with |- p_func ?base (?l :: ?r) ?x = _ =>
+      let H := fresh in
+      pose proof (simple_value_is_formula base l r x _ _ ltac:(rewrite K; exact I) Ek Hc) as H;
+      rewrite K in H; unfold simple_amount, kk in H; exact H end.
+
+  Theorem quadratic_equality_value base l r x k c :
+    lk _ _ l = QuadEq -> lmul _ _ l = Some k -> lcond _ _ l x = CV c ->
+    p_func base (l :: r) x = xadd (Fin (k * lh _ _ l ^ ln _ _ l * (c * c))) (p_func base r x).
+  Proof. intros K Ek Hc. by_simple K Ek Hc. Qed.
+
+  Theorem linear_equality_value base l r x k c :
+    lk _ _ l = LinEq -> lmul _ _ l = Some k -> lcond _ _ l x = CV c ->
+    p_func base (l :: r) x = xadd (Fin (k * lh _ _ l ^ ln _ _ l * Rabs c)) (p_func base r x).
+  Proof. intros K Ek Hc. by_simple K Ek Hc. Qed.
+
+  Theorem uniform_equality_value base l r x k c :
+    lk _ _ l = UniEq -> lmul _ _ l = Some k -> lcond _ _ l x = CV c ->
+    p_func base (l :: r) x = xadd (Fin (if Reqb c 0 then 0 else k * lh _ _ l ^ ln _ _ l)) (p_func base r x).
+  Proof. intros K Ek Hc. by_simple K Ek Hc. Qed.
+
+  Theorem uniform_inequality_value base l r x k c :
+    lk _ _ l = UniIneq -> lmul _ _ l = Some k -> lcond _ _ l x = CV c ->
+    p_func base (l :: r) x = xadd (Fin (if Rltb 0 c then k * lh _ _ l ^ ln _ _ l else 0)) (p_func base r x).
+  Proof. intros K Ek Hc. by_simple K Ek Hc. Qed.
+
+  Theorem quadratic_inequality_value base l r x k c :
+    lk _ _ l = QuadIneq -> lmul _ _ l = Some k -> lcond _ _ l x = CV c ->
+    p_func base (l :: r) x = xadd (Fin (2 * (k * lh _ _ l ^ ln _ _ l) * (Rmax 0 c * Rmax 0 c))) (p_func base r x).
+  Proof. intros K Ek Hc. by_simple K Ek Hc. Qed.
+
+  Theorem linear_inequality_value base l r x k c :
+    lk _ _ l = LinIneq -> lmul _ _ l = Some k -> lcond _ _ l x = CV c ->
+    p_func base (l :: r) x = xadd (Fin (2 * (k * lh _ _ l ^ ln _ _ l) * Rmax 0 c)) (p_func base r x).
+  Proof. intros K Ek Hc. by_simple K Ek Hc. Qed.
+
 End Proofs.
+
+(* ---------------------------------------------------------------- constraints.as_penalty *)
+Section AsPenaltyProofs.
+  Variable lg : R -> R.
+  Variable sqrt : R -> R.
+  Hypothesis sqrt_sq : forall a, 0 <= a -> sqrt a * sqrt a = a.
+
+  Fixpoint sqdistR (cx x : list R) : R :=
+    match x, cx with
+    | xi :: xr, ci :: cr => (ci - xi) * (ci - xi) + sqdistR cr xr
+    | _, _ => 0
+    end.
+
+  Lemma sqdistR_nonneg cx x : 0 <= sqdistR cx x.
+  Proof.
+    revert cx; induction x as [|xi xr IH]; intros [|ci cr]; cbn [sqdistR]; try lra.
+    specialize (IH cr). pose proof (Rle_0_sqr (ci - xi)) as Hs. unfold Rsqr in Hs. lra.
+  Qed.
+
+  Lemma sqdist_spec x : forall cx acc, length cx = length x ->
+    sqdist NumR cx x acc = Some (acc + sqdistR cx x).
+  Proof.
+    induction x as [|xi xr IH]; intros [|ci cr] acc Hl; try discriminate; cbn [sqdist sqdistR].
+    - f_equal. cbn [NumR T]. lra.
+    - injection Hl as Hl. rewrite (IH cr _ Hl). f_equal. cbn [NumR T add sub mul]. lra.
+  Qed.
+
+  (* as_penalty(constraint) with the defaults (quadratic_equality, k=100, h=5, iteration n):
+     the value is 100 * 5**n * |constraint(x) - x|^2 *)
+  Theorem as_penalty_value_is_formula (constraint : list R -> list R) (x : list R) (n : nat) ys :
+    length (constraint x) = length x ->
+    forall l, as_penalty NumR sqrt constraint None None None = [l] ->
+    p_func NumR lg (list R) (zero_base NumR (list R))
+      [mkLevel NumR (list R) (lk _ _ l) (lcond _ _ l) (lmul _ _ l) (lh _ _ l) n ys] x
+    = Fin NumR (100 * 5 ^ n * sqdistR (constraint x) x + 0).
+  Proof.
+    intros Hl l El. injection El as <-. cbn [new_level lk lcond lmul lh default_k default_h].
+    pose proof (sqdistR_nonneg (constraint x) x) as Hnn.
+    rewrite (simple_value_is_formula lg (list R) _ _ [] x 100 (sqrt (sqdistR (constraint x) x)));
+      cbn [lk lmul lcond]; [ | exact I | reflexivity | ].
+    - unfold kk; cbn [lh ln simple_amount Penalty.p_func zero_base Penalty.xadd].
+      rewrite sqrt_sq by exact Hnn. unr. reflexivity.
+    - unfold as_penalty_cond, rnorm. rewrite (sqdist_spec x (constraint x) _ Hl). cbn [option_map].
+      unr. do 2 f_equal. lra.
+  Qed.
+
+  (* zero exactly on the constraint's fixed points, strictly positive elsewhere *)
+  Lemma sqdistR_zero_iff x : forall cx, length cx = length x -> (sqdistR cx x = 0 <-> cx = x).
+  Proof.
+    induction x as [|xi xr IH]; intros [|ci cr] Hl; try discriminate; cbn [sqdistR]; [tauto|].
+    injection Hl as Hl. specialize (IH cr Hl). pose proof (sqdistR_nonneg cr xr) as Hn.
+    split; intros H.
+    - pose proof (Rle_0_sqr (ci - xi)) as Hs. unfold Rsqr in Hs.
+      assert (E1 : (ci - xi) * (ci - xi) = 0) by lra. assert (E2 : sqdistR cr xr = 0) by lra.
+      apply Rmult_integral in E1. assert (ci = xi) by (destruct E1; lra). subst. f_equal. apply IH; assumption.
+    - injection H as E1 E2. subst. assert (E3 : sqdistR xr xr = 0) by (apply IH; reflexivity). rewrite E3. ring.
+  Qed.
+
+  Theorem as_penalty_zero_iff_fixed_point (constraint : list R -> list R) (x : list R) (n : nat) :
+    length (constraint x) = length x ->
+    (100 * 5 ^ n * sqdistR (constraint x) x + 0 = 0 <-> constraint x = x) /\
+    (constraint x <> x -> 0 < 100 * 5 ^ n * sqdistR (constraint x) x + 0).
+  Proof.
+    intros Hl. pose proof (sqdistR_nonneg (constraint x) x) as Hnn.
+    pose proof (sqdistR_zero_iff x (constraint x) Hl) as Hz.
+    assert (0 < 100 * 5 ^ n) by (pose proof (pow_pos_R 5 n ltac:(lra)); lra).
+    split; [split; intros H1|intros Hne].
+    - apply Hz. nra.
+    - apply Hz in H1. rewrite H1. ring.
+    - assert (sqdistR (constraint x) x <> 0) by (intros E; apply Hne, Hz, E). nra.
+  Qed.
+End AsPenaltyProofs.
+
+(* non-vacuity witness used by Props/Properties_C15.v *)
+Lemma nonvacuous_scope :
+  let l1 : level NumR nat := mkLevel NumR nat QuadEq (fun _ => CV NumR 3) (Some 2) 5 1 [] in
+  let l2 : level NumR nat := mkLevel NumR nat LagIneq (fun _ => CV NumR (-1)) (Some 20) 5 2 [Some 1; Some 0] in
+  let l3 : level NumR nat := mkLevel NumR nat BarIneq (fun _ => CV NumR (-2)) (Some 100) 5 0 [] in
+  Forall (in_scope nat 0%nat) [l1; l2; l3] /\ simple (lk _ _ l1) /\ ~ satisfied (lk _ _ l1) 3 /\
+  satisfied (lk _ _ l2) (-1) /\ finite_upto (ly _ _ l2) (ln _ _ l2).
+Proof.
+  cbv zeta.
+  assert (F0 : forall n, finite_upto [] n).
+  { intros n i _. unfold Penalty.stored. destruct i; discriminate. }
+  assert (F2 : finite_upto [Some 1; Some 0] 2).
+  { intros i Hi. unfold Penalty.stored. destruct i as [|[|i]]; cbn; try discriminate. lia. }
+  split; [|split; [exact I | split; [cbn; lra | split; [cbn; lra | exact F2]]]].
+  assert (S : forall (l : level NumR nat) k c, lmul _ _ l = Some k -> 0 < k -> 0 < lh _ _ l ->
+              finite_upto (ly _ _ l) (ln _ _ l) -> lcond _ _ l 0%nat = CV NumR c -> in_scope nat 0%nat l).
+  { intros l k c Ek Hk Hh Hf Hc. split; [exists k; split; assumption|]. split; [exact Hh|]. split; [exact Hf|].
+    right; exists c; exact Hc. }
+  apply Forall_cons; [|apply Forall_cons; [|apply Forall_cons; [|apply Forall_nil]]].
+  - apply (S _ 2 3); cbn; try reflexivity; try lra. apply F0.
+  - apply (S _ 20 (-1)); cbn; try reflexivity; try lra. exact F2.
+  - apply (S _ 100 (-2)); cbn; try reflexivity; try lra. apply F0.
+Qed.
